@@ -273,7 +273,7 @@ def conc_tree(tree, tail: str, eol: bytes, rng: random.Random | None) -> bytes:
     """the message of the tree.  rng None: canonical representatives (no
     preamble / epilogue, minimal headers); boundaries are unique per multipart
     and are no token of the line model (the model has no prediction)."""
-    ctr = [0]
+    ctr = [0, 0]
     closers = set()
     cut = tail.startswith('cut')
 
@@ -282,7 +282,9 @@ def conc_tree(tree, tail: str, eol: bytes, rng: random.Random | None) -> bytes:
 
     def ent(t) -> list:
         if t[0] == 't':
-            return list(pick(_PART_HDR)) + [b''] + list(pick(_PART_TXT))
+            ctr[1] += 1    # canonical: the texts of sibling parts differ in length
+            txt = _PART_TXT[(ctr[1] - 1) % len(_PART_TXT)] if rng is None else pick(_PART_TXT)
+            return list(pick(_PART_HDR)) + [b''] + list(txt)
         if t[0] == 'r':
             hdr = [pick(_CTM_REPS)]
             if rng is not None and rng.random() < 0.3:
@@ -534,10 +536,14 @@ def judge(data: bytes, obs: dict, pred: Pred | None, backend: str, place: str):
         fails.append(('stored', sig, {'got': s[:200], 'len_got': len(s)}))
         if backend == 'maildir':
             base, p = s, obs.get('pred_for_stored')
-            if p is None:
+            if p is None and not obs.get('directed'):
                 # the store rewrote the message into a string the model has no
                 # prediction for: only the clauses that no known deviation of
                 # the MIME index can break are judged against the stored bytes
+                # (a directed MIME tree is never in the model and has none of
+                # the triggers of those deviations - every entity has its blank
+                # line and a body: all clauses are judged against the stored
+                # bytes)
                 unjudged = True
     if 'rfc822' in obs and obs['rfc822'] != s:
         fails.append(('rfc822-vs-body[]', None, {'rfc822': (obs['rfc822'] or b'')[:200]}))
@@ -556,16 +562,36 @@ def judge(data: bytes, obs: dict, pred: Pred | None, backend: str, place: str):
             fails.append(('partial', None, {'o': o, 'n': k, 'got': None if val is None else val[:100]}))
             break
     pl = {lf[0]: lf for lf in (p.leaves if p else ())}
-    # the parts of an encapsulated message are not modelled: top-level clauses only
-    encaps = CTM_LINE.lower() in base.lower()
-    for path, size, body, mime in (() if encaps else obs['leaves']):
+    # message/rfc822 entities and the parts of the messages they embed are not
+    # modelled (no drift comparison below); the part-size clause is judged for
+    # them by the law alone
+    encl = obs.get('encl') or {}
+    msgparts = obs.get('msgparts') or ()
+    encaps = bool(msgparts) or CTM_LINE.lower() in base.lower()
+    for path, size, body, mime in obs['leaves']:
         if body is None:
             continue
         if size != len(body) and not (unjudged and not (
                 mime and size == len(mime) + len(body))):
             sig = None
+            clause = 'part-size'
+            detail = {'part': path, 'announced': size, 'len_body': len(body)}
             m = pl.get(path)
-            if m is not None:
+            if path in encl:
+                # announced below a message/rfc822 part: no model prediction.
+                # The open finding is recognised by its signature: the count
+                # is that of the part's own MIME header + body, and the two
+                # are one contiguous stretch of the stored message
+                if mime and size == len(mime) + len(body) and mime + body in s:
+                    sig = 'BodystructureSizeIncludesHeader'
+                else:
+                    clause = 'part-size below message/rfc822'
+                    detail.update({
+                        'below_part': encl[path], 'got': body[:60],
+                        'numbering': 'RFC 3501 6.4.5: the parts of the message embedded '
+                        'in the message/rfc822 part P are P.1, P.2, ... when it is '
+                        'multipart, its body is P.1 when it is not'})
+            elif m is not None:
                 if size == m[1] and body == base[m[2][0]:m[2][1]] and m[3]:
                     if 'PartEmptyGroupSlice' in m[3]:
                         sig = 'PartEmptyGroupSlice'
@@ -573,8 +599,14 @@ def judge(data: bytes, obs: dict, pred: Pred | None, backend: str, place: str):
                         sig = 'BodystructureSizeIncludesHeader'
             elif p is None and mime and size == len(mime) + len(body):
                 sig = 'BodystructureSizeIncludesHeader'
-            fails.append(('part-size', sig, {'part': path, 'announced': size,
-                                             'len_body': len(body)}))
+            if sig is None and path in msgparts:
+                clause = 'part-size of message/rfc822' + (
+                    ' (the whole message)' if obs.get('shape') == 'l' else '')
+                detail.update({
+                    'got': body[:60],
+                    'numbering': 'RFC 3501 6.4.5: BODY[P] of a message/rfc822 part is its '
+                    'body, the embedded message in full (header and body)'})
+            fails.append((clause, sig, detail))
     # drift: the as-is model's prediction against the real result
     if p is not None:
         want = {'raw': base[p.raw[0]:p.raw[1]], 'hdr': base[p.hdr[0]:p.hdr[1]],
@@ -654,7 +686,7 @@ def _fetch_basic(w: World, seq: int, stats: dict, with_rfc822: bool) -> dict:
            'hdr': wc.payload(d[b'BODY[HEADER]']), 'txt': wc.payload(d[b'BODY[TEXT]'])}
     if with_rfc822:
         obs['rfc822'] = wc.payload(d[b'RFC822'])
-    shape, leaves, weird = _bs_from_wire(d[b'BODYSTRUCTURE'])
+    shape, leaves, weird, obs['encl'], obs['msgparts'] = _bs_from_wire(d[b'BODYSTRUCTURE'])
     obs['shape'] = shape if not weird else None
     if weird:
         stats['bodystructure_unreadable'] = stats.get('bodystructure_unreadable', 0) + 1
@@ -665,6 +697,8 @@ def _fetch_basic(w: World, seq: int, stats: dict, with_rfc822: bool) -> dict:
             ps = b'.'.join(b'%d' % x for x in path)
             want.append(b'BODY.PEEK[%s] BODY.PEEK[%s.MIME]' % (ps, ps))
         items, rest, raw = _cmd(w, b'FETCH %d (%s)' % (seq, b' '.join(want)), stats)
+        if wc.tagged(rest) != b'OK':    # an announced part cannot be fetched
+            raise wc.BadResponse(f'FETCH {seq} of the announced parts: {raw[:200]!r}')
         d2 = dict(items.get(seq, ()))
         for path, size in leaves:
             ps = b'.'.join(b'%d' % x for x in path)
@@ -706,7 +740,7 @@ def grid(n: int, rng: random.Random | None, full_upto: int = 8, samples: int = 2
 
 
 def e2e_batch(backend: str, msgs: list, stats: dict, *, partial_places=('inbox',),
-              seed: int = 0) -> list:
+              seed: int = 0, inbox_samples: int = 24) -> list:
     """msgs: [(ident, data, mode)].  -> [(ident, place, obs | ('refused', raw)
     | ('error', text))] for place in inbox, copy, move."""
     out = []
@@ -735,7 +769,8 @@ def e2e_batch(backend: str, msgs: list, stats: dict, *, partial_places=('inbox',
             obs = _fetch_basic(w, k, stats, True)
             if 'inbox' in partial_places and obs['raw'] is not None:
                 obs['partials'] = _fetch_partials(
-                    w, k, grid(len(obs['raw']), random.Random(seed * 7919 + k)), stats)
+                    w, k, grid(len(obs['raw']), random.Random(seed * 7919 + k),
+                               samples=inbox_samples), stats)
             out.append((ident, 'inbox', obs))
         for k in range(1, len(accepted) + 1):
             items, rest, raw = _cmd(w, b'COPY %d Cp' % k)
@@ -797,26 +832,39 @@ def _mode_for(data: bytes, rng: random.Random) -> str:
     return 'plus'
 
 
+def _below_checked(obs: dict) -> int:
+    """announced parts below a message/rfc822 part whose BODY[p] was obtained
+    and compared with the announced size"""
+    encl = obs.get('encl') or {}
+    return sum(1 for lf in obs['leaves'] if lf[0] in encl and lf[2] is not None)
+
+
 def _direct_chunk(args):
     """[(kind, key, data)] -> [(kind, key, data, fails, drift)] only for
     entries with something to report; plus counts"""
     items = args
     rep = []
     n = 0
+    below = 0
     for kind, key, data in items:
-        st = (TABLES.byte if kind == 'b' else TABLES.line)[key]
-        pred = pred_from_byte_state(st) if kind == 'b' else pred_from_line_state(st, data)
+        if kind == 'e':
+            pred = None         # a MIME tree with message/rfc822: not in the model
+        else:
+            st = (TABLES.byte if kind == 'b' else TABLES.line)[key]
+            pred = pred_from_byte_state(st) if kind == 'b' else pred_from_line_state(st, data)
         try:
             obs = observe_direct(data)
         except Exception as exc:   # the parser itself fails on an accepted input
             rep.append((kind, key, data, [('parse-raises', None, {'exc': repr(exc)})], []))
             n += 1
             continue
+        obs['directed'] = kind == 'e'
         fails, drift = judge(data, obs, pred, 'direct', 'inbox')
+        below += _below_checked(obs)
         n += 1
         if fails or drift:
             rep.append((kind, key, data, fails, drift))
-    return n, rep
+    return n, rep, below
 
 
 def _e2e_chunk(args):
@@ -824,9 +872,14 @@ def _e2e_chunk(args):
     stats: dict = {}
     res = []
     msgs = [(i, data, mode) for i, (kind, key, data, mode) in enumerate(batch)]
+    # the MIME trees (own batches): the partial clause does not depend on the MIME
+    # structure and has its grid on the other families; here the corner ranges
+    # of the appended message only, the copies are judged on every other clause
+    trees = bool(batch) and batch[0][0] == 'e'
     try:
-        outs = e2e_batch(backend, msgs, stats, partial_places=('inbox', 'copy', 'move'),
-                         seed=seed)
+        outs = e2e_batch(backend, msgs, stats, seed=seed,
+                         partial_places=('inbox',) if trees else ('inbox', 'copy', 'move'),
+                         inbox_samples=8 if trees else 24)
         err = None
     except (wc.BadResponse, wc.Hang, KeyError, TypeError) as exc:
         outs, err = [], repr(exc)
@@ -844,17 +897,24 @@ def _e2e_chunk(args):
         if isinstance(obs, tuple):
             res.append((kind, key, data, mode, backend, place, obs, None))
             continue
-        st = (TABLES.byte if kind == 'b' else TABLES.line).get(key)
+        st = None if kind == 'e' else (TABLES.byte if kind == 'b' else TABLES.line).get(key)
         pred = None
         if st is not None:
             pred = pred_from_byte_state(st) if kind == 'b' else pred_from_line_state(st, data)
-        if obs['raw'] is not None and obs['raw'] != data:
+        obs['directed'] = kind == 'e'
+        if obs['raw'] is not None and obs['raw'] != data and kind != 'e':
             obs['pred_for_stored'] = TABLES.lookup(obs['raw'])
         if obs['raw'] is None:
             res.append((kind, key, data, mode, backend, place,
                         [('stored', None, {'got': None})], []))
             continue
         fails, drift = judge(data, obs, pred, backend, place)
+        nb = _below_checked(obs)
+        if nb:
+            stats['parts_below_rfc822_checked'] = stats.get('parts_below_rfc822_checked', 0) + nb
+            if place == 'inbox':
+                stats['messages_with_rfc822_' + backend] = \
+                    stats.get('messages_with_rfc822_' + backend, 0) + 1
         res.append((kind, key, data, mode, backend, place, fails, drift))
     return stats, res
 
@@ -872,7 +932,8 @@ def main(tier: str) -> int:
         'executions = one abstract string enumerated by TLC (byte classes or '
         'line tokens), concretised and pushed through the real code at one '
         'level (direct = MessageContent.parse + BaseLoadedMessage; e2e = real '
-        'server on dict / maildir incl. partial grid, parts, COPY, MOVE); '
+        'server on dict / maildir incl. partial grid, parts, COPY, MOVE), or one '
+        'directed / seeded random MIME tree with message/rfc822 entities at one level; '
         'non-trivial = the string has a line terminator or a header/body '
         'separator or a MIME part; distinct = distinct abstract strings')
     run.assumptions += [
@@ -882,7 +943,17 @@ def main(tier: str) -> int:
         'exhaustive only for class strings up to the stated length and line '
         'token messages up to the stated number of lines; lengths up to 64 KiB '
         'and deep MIME nesting are SAMPLED (seeded), not decided',
-        'the parts of message/rfc822 entities and BINARY (decoded) fetches are not modelled (a non-multipart message that is itself message/rfc822 is judged on the top-level clauses: BODY[], RFC822, SIZE, HEADER+TEXT, partials)',
+        'message/rfc822 entities, the parts of the messages they embed and BINARY '
+        '(decoded) fetches are not in the TLA+ model: no model prediction (drift) for '
+        'them.  The laws are judged for them all the same: the top-level clauses, and '
+        'the part-size clause for every part BODYSTRUCTURE announces at or below a '
+        'message/rfc822 entity, numbered as RFC 3501 6.4.5 says (embedded multipart: '
+        'P.1, P.2, ...; embedded non-multipart: P.1).  These messages are directed MIME '
+        'trees (ENCAPS_SHAPES x 4 endings x CRLF/LF x 2 representatives) plus seeded '
+        'random trees: SAMPLED, not enumerated',
+        'BODY[p.MIME] is used only to recognise the open finding '
+        'BodystructureSizeIncludesHeader (announced = len(BODY[p.MIME]) + len(BODY[p])); '
+        'what it returns is not demanded',
         'maildir: clauses other than "stored = appended" are judged against '
         'the stored bytes when the store rewrote the message (known findings)',
     ]
@@ -895,6 +966,7 @@ def main(tier: str) -> int:
         e2e_line_max = {'dict': 2, 'maildir': 1}
         e2e_sample = {'dict': 700, 'maildir': 160}
         long_n = 0
+        encaps_random = 60
     else:
         byte_ideal, byte_asis_len = ('WireMime_ideal7.cfg', 7), 6
         line_cfgs = [('WireMimeLines_free5_asis.cfg', 'WireMimeLines_free5_ideal.cfg', False),
@@ -904,6 +976,7 @@ def main(tier: str) -> int:
         e2e_line_max = {'dict': 3, 'maildir': 2}
         e2e_sample = {'dict': 30000, 'maildir': 4000}
         long_n = 60
+        encaps_random = 3000
 
     # ---- 1. TLC -----------------------------------------------------------
     import shutil
@@ -978,6 +1051,10 @@ def main(tier: str) -> int:
         d1 = conc_lines(toks, nl, rng)
         if d1:
             work.append(('l', key, d1))
+    # MIME trees with message/rfc822 entities (own generator: the e2e level below
+    # must see the same messages whatever was drawn from rng before)
+    encaps = encaps_items(run.seed, random.Random(run.seed * 31 + 7), encaps_random)
+    work += [('e', key, data) for key, data in encaps]
     chunks = wc.chunked(work, 4000)
     try:
         results = wc.pmap(_direct_chunk, chunks, procs)
@@ -986,13 +1063,19 @@ def main(tier: str) -> int:
         return run.finish()
     reports = []
     ndirect = 0
-    for n, rep in results:
+    below_direct = 0
+    for n, rep, nb in results:
         ndirect += n
+        below_direct += nb
         reports += [(kind, key, data, 'direct', 'direct', 'inbox', f, d)
                     for kind, key, data, f, d in rep]
     for kind, key, data in work:
         run.count_exec(('d', kind, key), nontrivial=_nontrivial(kind, key))
     run.notes['direct'] = {'executions': ndirect, 'wall_s': timer.lap()}
+    run.notes['encapsulated'] = {
+        'directed_shapes': sorted(ENCAPS_SHAPES), 'endings': list(ENCAPS_TAILS),
+        'messages': len(encaps), 'random_trees': encaps_random,
+        'parts_below_rfc822_checked': {'direct': below_direct}}
 
     # ---- 3. end to end ----------------------------------------------------
     e2e_jobs = []
@@ -1020,6 +1103,12 @@ def main(tier: str) -> int:
         bs = 24 if backend == 'dict' else 12
         for i, batch in enumerate(wc.chunked(items, bs)):
             e2e_jobs.append((backend, batch, run.seed * 1000003 + i))
+        items = []
+        for key, data in encaps:
+            r = random.Random(zlib.crc32(repr((run.seed, 'e', key)).encode()))
+            items.append(('e', key, data, _mode_for(data, r)))
+        for i, batch in enumerate(wc.chunked(items, bs // 2)):
+            e2e_jobs.append((backend, batch, run.seed * 1000033 + i))
     # long / deep messages (thorough): sampled, no exhaustiveness claim
     long_items = []
     if long_n:
@@ -1056,12 +1145,27 @@ def main(tier: str) -> int:
                                nontrivial=_nontrivial(kind, key))
             if fails or drift:
                 reports.append((kind, key, data, mode, backend, place, fails, drift))
+    enc = run.notes['encapsulated']
+    enc['parts_below_rfc822_checked']['e2e (inbox, copy, move)'] = \
+        stats_total.pop('parts_below_rfc822_checked', 0)
+    enc['e2e_messages_with_parts_below_rfc822'] = {
+        b: stats_total.pop('messages_with_rfc822_' + b, 0) for b in ('dict', 'maildir')}
     run.notes['e2e'] = {'messages': ne2e, 'refused': refused, 'stats': stats_total,
                         'long_samples': len(long_items), 'wall_s': timer.lap()}
 
     # ---- 4. verdicts --------------------------------------------------------
     sample_seen = set()
-    for kind, key, data, mode, backend, place, fails, drift in reports:
+    # only the first 20 violations are printed with a replay file: order the
+    # reports so that those show every (level, failing clauses) combination
+    # before the second instance of any
+    rank: dict = {}
+    ordered = []
+    for idx, r in enumerate(reports):
+        k = (r[4], tuple(sorted({c for c, sig, _d in r[6] if sig not in run.known.open})))
+        rank[k] = rank.get(k, 0) + 1
+        ordered.append((rank[k] if k[1] else 0, idx, r))
+    ordered.sort(key=lambda x: x[:2])
+    for _n, _idx, (kind, key, data, mode, backend, place, fails, drift) in ordered:
         for clause, sig, detail in fails:
             rep = {'check': 'C03', 'level': backend, 'place': place, 'mode': mode,
                    'abstract': list(key[0]) + ['nl' if key[1] else 'no-nl'] if kind == 'l'
@@ -1165,8 +1269,10 @@ def replay(path: str) -> int:
     rec = json.load(open(path))['replay']
     data = bytes.fromhex(rec['b_hex'].rstrip('.'))
     level = rec['level']
+    directed = isinstance(rec.get('abstract'), list) and rec['abstract'][:1] == ['encaps']
     if level == 'direct':
         obs = observe_direct(data)
+        obs['directed'] = directed
         print('direct:', obs)
         fails, _ = judge(data, obs, None, 'direct', 'inbox')
     else:
@@ -1178,6 +1284,7 @@ def replay(path: str) -> int:
             print(place, obs if isinstance(obs, tuple) else
                   {k: v for k, v in obs.items() if k != 'partials'})
             if not isinstance(obs, tuple):
+                obs['directed'] = directed
                 f, _ = judge(data, obs, None, level, place)
                 fails += [(place,) + x for x in f]
     for f in fails:
